@@ -14,12 +14,16 @@ META = {
              "call, in index order, (d) the index lists only live records and acknowledged deletes stay deleted; claims_disjoint is "
              "(a); seven closed counterexamples (w_nonatomic, w_counter, w_expzero, w_stale, w_empty, w_patch, w_reindex) refute the "
              "statement for each defective fact; holds_partial: (a),(c),(d) for every schedule without PatchExpired patch/reindex steps "
-             "whatever the predicate facts are."),
+             "whatever the predicate facts are.  Deadlock clause (HoldsAll = claims_safe + DeadlockFree): Hv.LockOrder.no_deadlock — if every "
+             "waiting acquisition ranks above everything its thread holds, no reachable state is stuck; instantiated for the four "
+             "request kinds (selection pass, clone pass, delete, index-refreshing save) as no_deadlock_repaired (guard -> beacon lock: "
+             "passes only try the guards / clone outside the lock) and no_deadlock_beacon_first; closed witnesses deadlock_mixed_order "
+             "(delete or save vs selection pass) and deadlock_mixed_order_clone for the mixed order."),
     "note": ("PARTIAL: the shift claim's beacon selection and the deleteHandler calls that follow it are one model step (a Save that "
              "re-indexes a selected-but-not-yet-deleted record in that window is not modelled); keys are never re-created in the "
-             "model; Cap budgets are C12's.  The lock-order inversion between beacon locks and record guards (claims vs deletes / "
-             "expiry-changing saves / the first bucket build) is reproduced by a forced schedule and reported as a finding, but "
-             "deadlock freedom is not part of the proved statement.  The Go scheduler is driven, not enumerated.  Trusted: Lean "
+             "model; Cap budgets are C12's.  The deadlock clause covers the beacon locks and the record guards only (swamp-level locks, the "
+             "bucket locks and the chronicler are not in the lock model); the lock programs of the four request kinds are written "
+             "by hand from the code, two extracted facts select the variant.  The Go scheduler is driven, not enumerated.  Trusted: Lean "
              "kernel, extract/c11.go, harness/c11.go, sync.RWMutex semantics."),
     "design_ref": "§8 C11",
 }
@@ -34,9 +38,10 @@ FINDINGS = {
     "C11-reindex-resurrects-deleted": "ReindexExpiration re-inserts a selected record that was deleted meanwhile into the expiration "
                                       "index; a later ShiftExpired returns the deleted record",
     "C11-claim-returns-deleted-record": "a shift claim returns a record that was deleted before its selection step",
-    "C11-claim-delete-deadlock": "lock-order inversion: selection passes take record guards while holding the beacon lock, deleteHandler "
-                                 "(and expiry-changing saves, and the first bucket build vs. deleteHandler) take beacon locks while "
-                                 "holding a record guard — both requests hang forever",
+    "C11-claim-delete-deadlock": "two lock orders in use: beacon lock -> record guard (ShiftExpired / ShiftMatching / ShiftMany / "
+                                 "Clone*Treasures wait for each record's guard under b.mu) and record guard -> beacon lock "
+                                 "(deleteHandler and a Save that re-indexes update the beacons under the guard); a claim, a delete "
+                                 "and an index-refreshing save (or GetAll / the first bucket build) hang forever",
     "C11-selection-not-atomic": "a selection pass does not run under the beacon's write lock",
     "C11-claims-more-than-requested": "the selection pass compares `counter <= howMany`",
     "C11-claims-unexpiring-record": "the expired test lacks `exp != 0`",
